@@ -125,7 +125,9 @@ class Plane:
         """
         vg.shape.check(locals(), "points", (-1, 3))
 
-        eigval, eigvec = np.linalg.eig(np.cov(points.T))
+        # The covariance matrix is symmetric, so use the symmetric solver,
+        # which always returns real eigenvalues and eigenvectors.
+        eigval, eigvec = np.linalg.eigh(np.cov(points.T))
         ordering = np.argsort(eigval)[::-1]
         normal = np.cross(eigvec[:, ordering[0]], eigvec[:, ordering[1]])
 
